@@ -219,6 +219,9 @@ class CallsMixin:
         return self.run_function(node, mi, qn, args, kwargs)
 
     def is_inlining(self, qn) -> bool:
+        fc = self.reg.fns.get(qn)
+        if fc is not None and fc.inline:
+            return True
         return qn in getattr(self, "force_inline", ())
 
     def call_closure(self, c: Closure, args, kwargs, fr, awaited):
@@ -549,6 +552,8 @@ class CallsMixin:
             if isinstance(v.cls, type):
                 return any(isinstance(cl, type) and issubclass(v.cls, cl) for cl in classes)
             model = self.model_for(v.cls)
+            if model is not None and hasattr(model, "isinstance_of"):
+                return mk_bool(z3.Or(*[model.isinstance_of(self, v, cl) for cl in classes]))
             real = getattr(model, "real_class", None)
             if real is not None:
                 return any(isinstance(cl, type) and issubclass(real, cl) for cl in classes)
@@ -645,7 +650,7 @@ class CallsMixin:
         if v is None:
             raise mk_exc(TypeError, "cannot convert 'NoneType' object to bytes", where=fr.where())
         if isinstance(v, SymAny):
-            tag, val = ops.any_split(ctx, v, "bytes()", interesting=("bytes", "int", "bool", "seq", "other"))
+            tag, val = ops.any_split(ctx, v, "bytes()", interesting=("bytes", "num", "seq", "other"))
             if tag == "rest":
                 raise mk_exc(TypeError, "cannot convert to bytes", where=fr.where())
             if tag == "bytes":
@@ -693,7 +698,7 @@ class CallsMixin:
         if v is None:
             raise mk_exc(TypeError, "int() argument must be a string or a number, not 'NoneType'", where=fr.where())
         if isinstance(v, SymAny):
-            tag, val = ops.any_split(ctx, v, "int()", interesting=("int", "bool", "str", "bytes", "other"))
+            tag, val = ops.any_split(ctx, v, "int()", interesting=("num", "str", "bytes", "other"))
             if tag in ("int", "bool"):
                 return mk_int(z3_of_int(val))
             if tag == "rest":
